@@ -358,24 +358,34 @@ def l2_eligible(sc, res):
     return True
 
 
-def l2_trace(res):
-    """Project a recorded trace for TraceRetry: cut at Idle, give every PUBREL the tag of its message."""
+def l2_trace(res, resp_timeout_ms=0):
+    """Project a recorded trace for TraceRetry: cut at Idle, give every PUBREL the tag of its message.
+    A late acknowledgement (25 ms) is an ordinary one for the client unless a shorter ResponseTimeout expires first."""
     evs = []
     tagof = {}
     connack = {}
+    ackcut = set()
     for e in res["evs"]:
         if e["e"] == "Idle":
             break
+        if e["e"] == "Close" and e["by"] == "plan" and e["g"] in ackcut:
+            # for the model this is the transport ending under the client (its acknowledgements are not model steps)
+            e = dict(e, by="peer")
+            ackcut.discard(e["g"])
         if e["e"] == "Close" and e["by"] == "peer" and connack.get(e["g"]) != "accepted":
             # the broker closing a connection it refused is part of the failed Connect, not a fault of its own
             e = dict(e, by="brokerRefused")
         if e["e"] == "Write":
             e = dict(e)
+            if e.get("o") == "lateAck":
+                e["o"] = "dropAck" if 0 < resp_timeout_ms < 25 else "ok"
             if e["p"] == "CONNECT":
                 connack[e["g"]] = e.get("connack")
             if e["p"] == "PUBLISH":
                 tagof[e["id"]] = e["tag"]
             e["rtag"] = tagof.get(e["id"], 0) if e["p"] == "PUBREL" else 0
+            if not e.get("req", True) and e.get("o") in ("cutBefore", "cutAfter"):
+                ackcut.add(e["g"])       # the connection dies while the client acknowledges inbound traffic
             if e["p"] in ("PINGREQ", "DISCONNECT") or not e.get("req", True):
                 continue
         evs.append(e)
@@ -385,6 +395,7 @@ def l2_trace(res):
 def l2_validate(scenarios, results, max_groups=None, timeout=600):
     """Returns (validated, drift) where drift = [(scenario id, first unmatched event index, event)]."""
     groups = {}
+    rtms = {sc["id"]: sc.get("opts", {}).get("respTimeoutMs", 0) for sc in scenarios}
     for sc in scenarios:
         res = results.get(sc["id"])
         if not res or not l2_eligible(sc, res):
@@ -415,9 +426,9 @@ def l2_validate(scenarios, results, max_groups=None, timeout=600):
     def one(key):
         mwl, dor, ar, rt, dq, hs, ninb = key
         ids = groups[key]
-        text = "\n".join(json.dumps({"id": i, "evs": l2_trace(results[i])}, sort_keys=True) for i in ids) + "\n"
+        text = "\n".join(json.dumps({"id": i, "evs": l2_trace(results[i], rtms.get(i, 0))}, sort_keys=True) for i in ids) + "\n"
         mc = "---- MODULE MCTrace ----\nEXTENDS TraceRetry\nWL == %s\nHS == %s\n====\n" % (tla(json.loads(mwl)), tla(json.loads(hs)))
-        cfg = ["SPECIFICATION TSpec", "CONSTANTS", "  Workload <- WL", "  MaxFaults = 8", "  MaxGen = 9", "  DeliverOnRel = %s" % tla(dor),
+        cfg = ["SPECIFICATION TSpec", "CONSTANTS", "  Workload <- WL", "  MaxFaults = 14", "  MaxGen = 14", "  DeliverOnRel = %s" % tla(dor),
                "  SessionChoices = {TRUE, FALSE}", "  AlwaysResub = %s" % tla(ar), "  RespTimeout = %s" % tla(rt)]
         cfg += ["  %s = FALSE" % b for b in BUGS_OFF]
         cfg += ["  Handlers <- HS", "  MaxInbound = %d" % ninb, "  DirectQoS0 = %s" % tla(dq)]
@@ -436,6 +447,6 @@ def l2_validate(scenarios, results, max_groups=None, timeout=600):
                 if t["hw"] == t["len"] + 1:
                     validated += 1
                 else:
-                    evs = l2_trace(results[t["id"]])
+                    evs = l2_trace(results[t["id"]], rtms.get(t["id"], 0))
                     drift.append((t["id"], t["hw"], evs[t["hw"] - 1] if 0 < t["hw"] <= len(evs) else None))
     return validated, drift, states
